@@ -289,6 +289,7 @@ def doc_strategy():
         st.tuples(st.just("comment"), ws, ws, linetext, st.sampled_from(["\n", "\r\n", ""])),
         st.tuples(st.just("doc"), bodytext),
         st.tuples(st.just("texttag"), bodytext),
+        st.tuples(st.just("emptytext"), st.sampled_from(["<%text/>", "<%text />", "<%text></%text>", "<%doc></%doc>"])),  # (<%doc/> is not a tag)
         st.tuples(st.just("codingline"), st.sampled_from(["# coding: utf-8", "# -*- coding: latin-1 -*-", "#coding=ascii", "# decoding=fast x"]), nl),
         st.tuples(st.just("stray"), st.sampled_from(["%", "#", "##", "$", "<", "\\", "$ {", "< %", "%>", "}", "|", "</", "<\\", "$$",
                                                       "\\\\", "\\n", "%%", "<!", "</ %", "{", "#%", "\\ "])),
@@ -333,6 +334,9 @@ def build_doc(segs):
         elif kind == "texttag":
             body = sg[1].replace("</%text>", "</%t3xt>")
             d.raw("<%text>" + body + "</%text>", body, "texttag")
+        elif kind == "emptytext":
+            # the empty-element spellings of the two verbatim tags produce nothing and end where they are written
+            d.raw(sg[1], "", "emptytext")
         elif kind == "codingline":
             # a "# ...coding: x" line is only special as the FIRST line of the template; anywhere else it is plain text
             if not d.src:
